@@ -102,6 +102,7 @@ Section QueryInv.
     qvalues_ok values -> Inv d -> Inv (step_db (insert_nodes rv d count values als ids)).
   Proof.
     intros Hv Hd. unfold insert_nodes.
+    destruct (fix_empty_alias rv && existsb _ als); cbn [step_db]; [exact Hd|].
     destruct (resolve_ids rv d ids) as [query_ids|e|] eqn:Er; cbn [step_db]; try exact Hd.
     set (vals_list := match values with
                       | Single v => repeat v (Nat.max (length query_ids) (Z.to_nat (Z.max count (lenZ als))))
@@ -218,7 +219,7 @@ Section QueryInv.
 
   (* ---------- insert values ---------- *)
   Lemma insert_values_q_Inv a acc q kvs :
-    Inv a -> keys_distinct kvs -> Inv (step_db (insert_values_q a acc q kvs)).
+    Inv a -> keys_distinct kvs -> Inv (step_db (insert_values_q rv a acc q kvs)).
   Proof.
     intros Ha Hk. unfold insert_values_q. destruct (db_id a q) as [id|e] eqn:Ei.
     - unfold insert_values_id. cbn [step_db]. apply insert_kvs_replace_Inv; [exact Ha|].
@@ -227,7 +228,8 @@ Section QueryInv.
       + destruct (id =? 0); cbn [step_db]; [|exact Ha].
         pose proof (insert_values_new_Inv a acc None kvs Ha Hk) as H.
         destruct (insert_values_new a acc None kvs) as [d1 r]. cbn [step_db fst] in *. apply H.
-      + pose proof (insert_values_new_Inv a acc (Some al) kvs Ha Hk) as H.
+      + destruct (fix_empty_alias rv && _); cbn [step_db]; [exact Ha|].
+        pose proof (insert_values_new_Inv a acc (Some al) kvs Ha Hk) as H.
         destruct (insert_values_new a acc (Some al) kvs) as [d1 r]. cbn [step_db fst] in *. apply H.
   Qed.
 
